@@ -52,7 +52,7 @@ def run(ctx):
         seen.add(m["class"])
         vlib.report(ctx, "real registry differs from the model after %s: %s" % (json.dumps(m["ops"])[:300], m["msg"][:300]),
                     m, {"class": m["class"].split(":")[0], "own_key_exchange": m["own_key_exchange"]})
-    seeds = [ctx.seed * 1000 + 700 + i for i in range(6 if q else 60)]
+    seeds = [ctx.seed * 1000 + 700 + i for i in range(6 if q else 160)]
     lines, sums = cc.run_scenarios(ctx, seeds, 150 if q else 400)
     l2, s2 = cc.run_scenarios(ctx, [x + 300 for x in seeds[:max(2, len(seeds) // 3)]], 150 if q else 400, extra=cc.VRF)
     lines += l2
